@@ -26,7 +26,8 @@ fn zero_seg(address: usize) -> Result<u8, RuntimeError> {
     if address == INDICATOR_KEYS_ADDRESS {
         unsafe { get_indicator_keys() }
     } else {
-        unimplemented!()
+        // no other address of segment 0 is mapped
+        Err(RuntimeError::IllegalFunctionCall)
     }
 }
 
